@@ -65,7 +65,8 @@ class Doc:
     def emit(self, **kw):
         kw['id'] = len(self.out) + 1
         for k, v in dict(elem='', variant='', kind='', mut='', inp=EMPTY, outp=EMPTY, res=OKRES, res2=OKRES, res3=OKRES,
-                         same23=True, t0='', t1='', t2='', chk0=True, chk1=True, a0=[], a1=[], target='', tw=0, inside=[], alone=[]).items():
+                         same23=True, t0='', t1='', t2='', chk0=True, chk1=True, a0=[], a1=[], target='', tw=0, inside=[], alone=[],
+                         rootok=True, ownok=True, addok=True, insw=[], outw=[]).items():
             kw.setdefault(k, v)
         self.out.append(kw)
         return kw['id']
@@ -328,6 +329,63 @@ class Doc:
                     return sub
         return None
 
+    # ---- C18: mixtures of checked and unchecked nodes in one tree ------------------------------------------------
+    def mixed_for(self, name):
+        """name: an element with element content and at least one required child (so that it can be incomplete)"""
+        F, B, J = self.F, self.B, self.F.J
+        t = J['elemtype'][name]
+        if t not in J['cm'] or not F.shortest_word(t):
+            return
+        par = B.parents().get(name)
+        if not par:
+            return
+        pt = J['elemtype'][par]
+        alien = next((x for x in ('words', 'pitch', 'duration', 'staff') if x not in J['alphabet'][t] and x not in J['alphabet'].get(pt, [])), None)
+        if alien is None:
+            return
+
+        def out_names(text):
+            return [c.tag for c in ET.fromstring(text)]
+        # (a) unchecked root, checked incomplete child + a child the schema does not allow
+        def a():
+            P = F.mk(par, xsd_check=False, bare=True, lenient=True)
+            C = F.mk(name, bare=True)          # checked, required children missing
+            P.add_child(C)
+            P.add_child(F.mk(alien))
+            return P, C
+        r0, pc = call(a)
+        if r0['ok']:
+            P, C = pc
+            rr, text = call(lambda: P.to_string())
+            ro, _ = call(lambda: C.to_string())
+            ra, _ = call(lambda: C.add_child(F.mk(alien)))
+            self.emit(op='mixed', elem=name, variant='unchecked-root', target=par, res=rr, rootok=rr['ok'], ownok=ro['ok'], addok=ra['ok'],
+                      insw=[c.name for c in P.get_children(ordered=False)], outw=out_names(text) if rr['ok'] else [])
+        # (b) checked complete root holding an unchecked child that carries arbitrary children
+        def b():
+            w = F.word_through(pt, name)
+            P = F.mk(par, bare=True)
+            U = None
+            for k in w:
+                if k == name and U is None:
+                    U = F.mk(name, xsd_check=False, bare=True)
+                    P.add_child(U)
+                else:
+                    P.add_child(F.mk(k))
+            return P, U
+        r0, pu = call(b)
+        if r0['ok'] and pu[1] is not None:
+            P, U = pu
+            ra, _ = call(lambda: (U.add_child(F.mk(alien)), U.add_child(F.mk(alien))))
+            rr, text = call(lambda: P.to_string())
+            inner = []
+            if rr['ok']:
+                root = ET.fromstring(text)
+                node = next((c for c in root if c.tag == name), None)
+                inner = [c.tag for c in node] if node is not None else ['!missing']
+            self.emit(op='mixed', elem=name, variant='unchecked-inner', target=par, res=rr, rootok=rr['ok'], ownok=True, addok=ra['ok'],
+                      insw=[c.name for c in U.get_children(ordered=False)], outw=inner)
+
     # ---- C16: a subtree serialises to the same content alone as inside its parent, before and after it is mutated -------
     def nested_for(self, name):
         F, B, J = self.F, self.B, self.F.J
@@ -397,6 +455,7 @@ def main():
             D.copies_for(name)
         if buildable and 'nested' in job['ops']:
             D.nested_for(name)
+            D.mixed_for(name)
         if 'parse' in job['ops']:
             t = F.J['elemtype'][name]
             words = job['cover'].get(t, [[]])[:job['maxwords']]
